@@ -1808,12 +1808,14 @@ func (t *tScreen) collectEventsFromInput(buf *bytes.Buffer, expire bool) []Event
 			// to the app & let them sort it out.  Possibly we
 			// should only do this for control characters like ESC.
 			by, _ := buf.ReadByte()
-			mod := ModNone
+			ev := NewEventKey(KeyRune, rune(by), ModNone)
 			if t.escaped {
+				// Alt is added to whatever the byte means by itself
+				// (a control byte is a Ctrl key)
 				t.escaped = false
-				mod = ModAlt
+				ev = NewEventKey(ev.Key(), ev.Rune(), ev.Modifiers()|ModAlt)
 			}
-			res = append(res, NewEventKey(KeyRune, rune(by), mod))
+			res = append(res, ev)
 			continue
 		}
 
